@@ -177,7 +177,7 @@ fn tie<C: CT>(x: &MS, y: &MS) -> bool {
     matches!((x, y), (Some(x), Some(y)) if x.0 == y.0 && x.1 == y.1 && (x.2, x.3) != (y.2, y.3))
 }
 
-fn run_domain<C: CT>(rep: &mut Report, d: &Domain) {
+fn run_domain<C: CT>(rep: &mut Report, d: &Domain, sink: &mut std::collections::BTreeMap<String, crate::model::Viol>) {
     let t0 = std::time::Instant::now();
     let descr = d.states();
     let built: Vec<GroupMembersState<u8, C>> = descr.iter().map(|s| build::<C>(s)).collect();
@@ -208,7 +208,8 @@ fn run_domain<C: CT>(rep: &mut Report, d: &Domain) {
                 let c_ba = canon(&state::merge(built[b].clone(), built[a].clone()));
                 acc.outcomes.insert(h64(&(C::NAME, &c_ab)));
                 if descr[a].iter().zip(&descr[b]).any(|(x, y)| tie::<C>(x, y)) {
-                    acc.count("nontrivial", 1);
+                    // distinct across domains: keyed by the canonical states themselves
+                    acc.nontrivial.insert(h64(&(C::NAME, 2u8, &canons[a], &canons[b])));
                 }
                 if c_ab != c_ba {
                     // first member whose merged entry differs
@@ -242,7 +243,7 @@ fn run_domain<C: CT>(rep: &mut Report, d: &Domain) {
                 let bc = state::merge(built[b].clone(), built[c].clone());
                 let right = canon(&state::merge(built[a].clone(), bc));
                 if (0..d.members).any(|i| tie::<C>(&descr[a][i], &descr[b][i]) && tie::<C>(&descr[b][i], &descr[c][i]) && tie::<C>(&descr[a][i], &descr[c][i])) {
-                    acc.count("nontrivial", 1);
+                    acc.nontrivial.insert(h64(&(C::NAME, 3u8, &canons[a], &canons[b], &canons[c])));
                 }
                 if left != right {
                     let i = (0..d.members)
@@ -266,13 +267,11 @@ fn run_domain<C: CT>(rep: &mut Report, d: &Domain) {
             }
         }
     });
-    let nontrivial = total.counters.get("nontrivial").copied().unwrap_or(0);
-    rep.nontrivial_count(nontrivial);
     for c in &canons {
         rep.state(&(C::NAME, c));
     }
     let name = format!("{}/{}", d.name, C::NAME);
-    let mut v = total.flush(rep, &name);
+    let mut v = total.flush(rep, &name, sink);
     if let Some(o) = v.as_object_mut() {
         o.insert("states".into(), json!(n));
         o.insert("unordered_pairs".into(), json!(n * (n - 1) / 2));
@@ -334,7 +333,7 @@ fn from_real<C: CT>(r: &RealMembers<C>) -> Canon<C> {
     v
 }
 
-fn run_public<C: CT>(rep: &mut Report, d: &Domain, reps: usize) {
+fn run_public<C: CT>(rep: &mut Report, d: &Domain, reps: usize, sink: &mut std::collections::BTreeMap<String, crate::model::Viol>) {
     let descr = d.states();
     let n = descr.len();
     let idx: Vec<usize> = (0..n).collect();
@@ -386,7 +385,7 @@ fn run_public<C: CT>(rep: &mut Report, d: &Domain, reps: usize) {
         }
     });
     let name = format!("public-path/{}/{}", d.name, C::NAME);
-    let mut v = total.flush(rep, &name);
+    let mut v = total.flush(rep, &name, sink);
     if let Some(o) = v.as_object_mut() {
         o.insert("ordered_pairs".into(), json!(n * (n - 1)));
         o.insert("repetitions_per_pair".into(), json!(reps));
@@ -430,17 +429,19 @@ pub fn domains(thorough: bool, conditioned: bool) -> Vec<Domain> {
 
 pub fn run(mut rep: Report) -> i32 {
     let thorough = rep.thorough();
+    let mut sink = std::collections::BTreeMap::new();
     rep.rule = "one evaluation = one state (idempotence), one unordered pair of states (commutativity) or one ordered triple (associativity) of the domain, all enumerated; non-trivial = some member is present in all the merged states with equal member and access counters but different access (the tie-break decides)".into();
     for d in domains(thorough, false) {
-        run_domain::<()>(&mut rep, &d);
+        run_domain::<()>(&mut rep, &d, &mut sink);
     }
     for d in domains(thorough, true) {
-        run_domain::<crate::model::Cond>(&mut rep, &d);
+        run_domain::<crate::model::Cond>(&mut rep, &d, &mut sink);
     }
     // Public path on the one-member domains.
     let reps = 12;
-    run_public::<()>(&mut rep, &domains(false, false)[0], reps);
-    run_public::<crate::model::Cond>(&mut rep, &domains(false, true)[0], reps);
+    run_public::<()>(&mut rep, &domains(false, false)[0], reps, &mut sink);
+    run_public::<crate::model::Cond>(&mut rep, &domains(false, true)[0], reps, &mut sink);
+    crate::model::emit_violations(&mut rep, sink);
     rep.assume("`Access<()>` is only used with `conditions: None` (\"without conditions\"); the conditioned domain uses a condition type whose PartialOrd is the derived total order of a u8 and the values None < c1 < c2 (< c3 in the thorough tier)");
     rep.assume("merge treats every member key independently and compares counters only with ==, <, >: counters beyond 3 and more than two members behave like the enumerated ones");
     rep.assume("public-path part: the argument order in which state_at folds merge over its HashSet of heads cannot be owned (RandomState); it is repeated 12 times per pair and every result must equal one of the two argument orders of the included merge");
